@@ -83,32 +83,44 @@ theorem decString_encString_truncates (s : Bytes) (h : 16383 < s.length) (rest :
     stream marker or the escape string —, sets, hashes, sorted sets with arbitrary 64-bit score
     patterns incl. ±inf/±0/subnormals/NaN payloads, streams incl. the empty stream) with arbitrary
     byte contents and every written size below 2^32: the key comes back with exactly this value and
-    deadline, exactly the pair is consumed, the allocations are the string lengths.  No exclusion. -/
-theorem decValue_encValue (db : Db) (k : Bytes) (v : Value) (dl : Option Nat)
+    deadline, exactly the pair is consumed, the allocations are the string lengths.  No exclusion
+    (`dlOk`: the deadline fits signed 64-bit unix milliseconds — the engine refuses any other,
+    `StorageEngine::check_ttl`, so no key ever has one; the loader refuses such a file: `load_refuses_unrepresentable_deadline`). -/
+theorem decValue_encValue (db : Db) (k : Bytes) (v : Value) (dl : Option Nat) (hd : dlOk dl = true)
     (hk : strOk k = true) (hv : valueWF (escValue true v) = true)
     (hf : k ∉ keys db) (rest : Bytes) :
     loadTyped Fix.fixed true db (typeByte v) dl (encString k ++ (saveValue true v ++ rest)) =
       .ok (k, db ++ [⟨k, v, dl⟩]) rest (k.length :: valueAllocs (escValue true v)) :=
-  loadTyped_encKV Fix.fixed db k v dl hk hv (Or.inr rfl) (Or.inr rfl) hf rest
+  loadTyped_encKV Fix.fixed db k v dl hd hk hv (Or.inr rfl) (Or.inr rfl) hf rest
+
+/-- The excluded deadlines: the engine call that would set a deadline beyond `i64::MAX` unix milliseconds
+    (`set_string_ex` for a string, `expire` for every other type) is refused before anything is stored
+    (`StorageEngine::check_ttl`), whatever the database and the key: no reachable dataset holds such a
+    deadline, and a (corrupted) file that carries one is refused by the loader. -/
+theorem engine_refuses_unrepresentable_deadline (valid : Bool) (db : Db) (k : Bytes) (v : Value) (d : Nat)
+    (hd : i64max < d) :
+    setValue valid db ⟨k, v, some d⟩ = .error .badExpire ∧ expireOpt valid db k (some d) = .error .badExpire := by
+  have h : dlOk (some d) = false := by simp only [dlOk, decide_eq_false_iff_not]; omega
+  simp [setValue, expireOpt, expire, h]
 
 /-- The same for writer and loader of the pinned tree (no escape rule: `saveValue false v = encValue v`),
     outside its deviations: a list headed by the marker string, an empty stream. -/
-theorem decValue_encValue_partial (db : Db) (k : Bytes) (v : Value) (dl : Option Nat)
+theorem decValue_encValue_partial (db : Db) (k : Bytes) (v : Value) (dl : Option Nat) (hd : dlOk dl = true)
     (hk : strOk k = true) (hv : valueWF v = true) (hm : startsWithMarker v = false)
     (hs : isEmptyStream v = false) (hf : k ∉ keys db) (rest : Bytes) :
     loadTyped Fix.code true db (typeByte v) dl (encString k ++ (encValue v ++ rest)) =
       .ok (k, db ++ [⟨k, v, dl⟩]) rest (k.length :: valueAllocs v) := by
-  have h := loadTyped_encKV Fix.code db k v dl hk (by simpa using hv) (Or.inl hm) (Or.inl hs) hf rest
+  have h := loadTyped_encKV Fix.code db k v dl hd hk (by simpa using hv) (Or.inl hm) (Or.inl hs) hf rest
   simpa [saveValue] using h
 
 /-- The escape rule alone: ANY loader that knows it (`listEscape`), whatever its other switches,
     reads back EVERY well-formed list written by a writer that applies it. -/
 theorem decList_encList (fix : Fix) (hfix : fix.listEscape = true) (db : Db) (k : Bytes) (xs : List Bytes)
-    (dl : Option Nat) (hk : strOk k = true) (hv : valueWF (escValue true (.list xs)) = true)
+    (dl : Option Nat) (hd : dlOk dl = true) (hk : strOk k = true) (hv : valueWF (escValue true (.list xs)) = true)
     (hf : k ∉ keys db) (rest : Bytes) :
     loadTyped fix true db 1 dl (encString k ++ (saveValue true (.list xs) ++ rest)) =
       .ok (k, db ++ [⟨k, .list xs, dl⟩]) rest (k.length :: valueAllocs (escValue true (.list xs))) := by
-  have h := loadTyped_list fix db k xs dl hk (by rw [hfix]; exact hv) (Or.inr hfix) hf rest
+  have h := loadTyped_list fix db k xs dl hd hk (by rw [hfix]; exact hv) (Or.inr hfix) hf rest
   rwa [hfix] at h
 
 /-- witness (writer WITHOUT the escape rule, every loader): the well-formed LIST
@@ -367,7 +379,7 @@ example : (live 2000 reserved).map (fun p => (p.1, p.2.length)) = [(0, 5), (7, 5
 /-- one value: `[marker]`, which the pinned tree loses (`decValue_fails_marker_only_list`) -/
 example : loadTyped Fix.fixed true [] 1 none (encString [107] ++ (saveValue true (.list [marker]) ++ [255])) =
     .ok ([107], [⟨[107], .list [marker], none⟩]) [255] [1, 23, 25] :=
-  decValue_encValue [] [107] (.list [marker]) none (by decide) (by decide) (by decide) [255]
+  decValue_encValue [] [107] (.list [marker]) none rfl (by decide) (by decide) (by decide) [255]
 /-- `sample` holds no such list: its dump is the same with and without the rule, for every loader -/
 example : anyEntry (fun e => reservedHead e.val) sample = false := by decide
 /-- the boundary lengths are instances of the general length theorem -/
